@@ -26,6 +26,7 @@ WITH THE SOFTWARE OR THE USE OR OTHER DEALINGS IN THE SOFTWARE.
 
 #include "CoreSMTSolver.h"
 #include "ResolutionProof.h"
+#include <common/VerifSim.h>
 
 #include <tsolvers/TSolver.h>
 
@@ -116,6 +117,7 @@ TPropRes CoreSMTSolver::handleNewSplitClauses(SplitClauses & splitClauses) {
             if (!this->logsResolutionProof()) {
                 if (decisionLevel() == 0) {
                     // MB: do not allocate, we can directly enqueue the implied literal
+                    OSMT_SIM_CLAUSE(&theory_handler, opensmt::verifsim::CK_SPLITUNIT, &splitClause[notFalsifiedIndex.value()], 1);
                     uncheckedEnqueue(splitClause[notFalsifiedIndex.value()], CRef_Undef);
                     res = TPropRes::Propagate;
                     continue;
@@ -200,6 +202,7 @@ CoreSMTSolver::handleSat()
             vardata[var(l)].reason = unit;
             deducedReason = unit;
         }
+        if (decisionLevel() == 0) { OSMT_SIM_CLAUSE(&theory_handler, opensmt::verifsim::CK_TROOTDED, &l, 1); }
         uncheckedEnqueue(l, deducedReason);
     }
     if (deds.size() > 0) {
